@@ -12,6 +12,9 @@ from dataclasses import dataclass, field
 from typing import Dict, Iterable, List, Optional, Tuple
 
 
+from .desugar import desugar_module
+
+
 class AnalysisError(Exception):
     """The analyser cannot decide (anchor vanished, idiom not recognised): exit 2, never a violation."""
 
@@ -82,7 +85,7 @@ class Repo:
                     rel = os.path.relpath(path, self.root)
                     try:
                         src = open(path, encoding="utf-8").read()
-                        tree = ast.parse(src, filename=rel)
+                        tree = desugar_module(ast.parse(src, filename=rel))
                     except SyntaxError as e:  # a file that does not parse cannot be analysed
                         raise AnalysisError(f"cannot parse {rel}: {e}")
                     is_pkg = fn == "__init__.py"
@@ -314,12 +317,29 @@ _METHOD_FORM = {"round", "clamp", "clip", "abs", "amax", "amin", "squeeze", "res
 _SIGNATURES: Dict[str, ast.FunctionDef] = {}  # unique package function / constructor names -> def (filled by set_active_repo)
 
 
+def _literal_elements(a):
+    """Elements of a literal sequence, or of a comprehension over a literal sequence with a single name target (expanded)."""
+    if isinstance(a, (ast.List, ast.Tuple, ast.Set)) and not any(isinstance(e, ast.Starred) for e in a.elts):
+        return list(a.elts)
+    if isinstance(a, (ast.GeneratorExp, ast.ListComp)) and len(a.generators) == 1:
+        g = a.generators[0]
+        if not g.ifs and not g.is_async and isinstance(g.iter, (ast.Tuple, ast.List)) and isinstance(g.target, ast.Name) and not any(isinstance(e, ast.Starred) for e in g.iter.elts):
+            return [subst(copy.deepcopy(a.elt), {g.target.id: e}) for e in g.iter.elts]
+    return None
+
+
 class _Canon(ast.NodeTransformer):
     def visit_Call(self, node):
         self.generic_visit(node)
         f = node.func
         if isinstance(f, ast.Attribute) and f.attr == "Size" and isinstance(f.value, ast.Name) and f.value.id == "torch" and len(node.args) == 1 and isinstance(node.args[0], ast.Tuple):
             return ast.Call(func=f, args=[ast.List(elts=node.args[0].elts, ctx=ast.Load())], keywords=[])
+        if isinstance(f, ast.Attribute) and f.attr == "get" and isinstance(f.value, ast.Dict) and len(node.args) in (1, 2) and not node.keywords and all(k is not None for k in f.value.keys):
+            # {k1: v1, k2: v2}.get(x, d) -> v1 if x == k1 else (v2 if x == k2 else d)
+            r = node.args[1] if len(node.args) == 2 else ast.Constant(value=None)
+            for k, v in reversed(list(zip(f.value.keys, f.value.values))):
+                r = ast.IfExp(test=ast.Compare(left=copy.deepcopy(node.args[0]), ops=[ast.Eq()], comparators=[k]), body=v, orelse=r)
+            return r
         if isinstance(f, ast.Attribute):
             base = f.value
             # torch.f(x, ...) -> x.f(...)
@@ -346,12 +366,19 @@ class _Canon(ast.NodeTransformer):
                 return ast.Attribute(value=f.value, attr="ndim", ctx=ast.Load())
             return node
         if isinstance(f, ast.Name):
+            if f.id in ("all", "any") and len(node.args) == 1 and not node.keywords:
+                vals = _literal_elements(node.args[0])
+                if vals:
+                    r = vals[0] if len(vals) == 1 else ast.BoolOp(op=ast.And() if f.id == "all" else ast.Or(), values=vals)
+                    return self.visit(r)
             if f.id == "float" and len(node.args) == 1 and isinstance(node.args[0], ast.Attribute) and node.args[0].attr in ("max", "min", "eps"):
                 return node.args[0]
             if f.id == "int" and len(node.args) == 1 and not node.keywords and isinstance(node.args[0], (ast.Attribute, ast.Subscript, ast.Name)):
                 return node.args[0]  # int() of a size / bit width / count is the identity
             if f.id == "int" and len(node.args) == 1 and not node.keywords and isinstance(node.args[0], ast.Call) and isinstance(node.args[0].func, ast.Attribute) and node.args[0].func.attr in ("numel", "size", "dim", "item"):
                 return node.args[0]
+            if f.id in ("tuple", "list") and len(node.args) == 1 and not node.keywords and isinstance(node.args[0], ast.Attribute) and node.args[0].attr == "shape":
+                return node.args[0]  # tuple(x.shape) / tuple(x.size()): the shape itself
             if f.id == "len" and len(node.args) == 1 and isinstance(node.args[0], ast.Attribute) and node.args[0].attr == "shape":
                 return ast.Attribute(value=node.args[0].value, attr="ndim", ctx=ast.Load())
             if f.id == "range" and len(node.args) == 2 and isinstance(node.args[0], ast.Constant) and node.args[0].value == 0 and not node.keywords:
@@ -374,6 +401,16 @@ class _Canon(ast.NodeTransformer):
                             break
                     if ok and not given:
                         return ast.Call(func=f, args=args, keywords=[])
+        return node
+
+    def visit_Attribute(self, node):
+        self.generic_visit(node)
+        # <qtype>.dtype.is_floating_point -> <qtype>.is_floating_point (the qtype table keeps the two equal: C01.R3 checks it)
+        if node.attr == "is_floating_point" and isinstance(node.value, ast.Attribute) and node.value.attr == "dtype":
+            base = node.value.value
+            nm = base.id if isinstance(base, ast.Name) else base.attr if isinstance(base, ast.Attribute) else ""
+            if nm.lstrip("_").endswith("qtype"):
+                return ast.Attribute(value=base, attr="is_floating_point", ctx=node.ctx)
         return node
 
     def visit_Subscript(self, node):
@@ -399,8 +436,47 @@ class _Canon(ast.NodeTransformer):
                 return ast.Compare(left=node.operand.left, ops=[flip[op]()], comparators=node.operand.comparators)
         return node
 
+    def visit_BoolOp(self, node):
+        self.generic_visit(node)
+        # flatten nested same-operator clauses
+        vals = []
+        for v in node.values:
+            if isinstance(v, ast.BoolOp) and type(v.op) is type(node.op):
+                vals.extend(v.values)
+            else:
+                vals.append(v)
+        # x == a or x == b -> x in (a, b);  x != a and x != b -> x not in (a, b)
+        want = ast.Eq if isinstance(node.op, ast.Or) else ast.NotEq
+        groups: Dict[str, list] = {}
+        for v in vals:
+            if isinstance(v, ast.Compare) and len(v.ops) == 1 and isinstance(v.ops[0], want) and isinstance(v.comparators[0], (ast.Constant, ast.UnaryOp, ast.Attribute, ast.Name)):
+                groups.setdefault(ast.unparse(v.left), []).append(v)
+        out = []
+        done = set()
+        for v in vals:
+            key = ast.unparse(v.left) if isinstance(v, ast.Compare) and len(v.ops) == 1 and isinstance(v.ops[0], want) else None
+            g = groups.get(key) if key is not None else None
+            if g and len(g) >= 2 and any(v is x for x in g):
+                if key in done:
+                    continue
+                done.add(key)
+                out.append(ast.Compare(left=g[0].left, ops=[ast.In() if want is ast.Eq else ast.NotIn()], comparators=[ast.Tuple(elts=[x.comparators[0] for x in g], ctx=ast.Load())]))
+            else:
+                out.append(v)
+        if len(out) == 1:
+            return out[0]
+        node.values = out
+        return node
+
     def visit_Compare(self, node):
         self.generic_visit(node)
+        if len(node.ops) > 1:
+            # a == b == c -> a == b and b == c
+            parts, left = [], node.left
+            for op, right in zip(node.ops, node.comparators):
+                parts.append(self.visit_Compare(ast.Compare(left=copy.deepcopy(left), ops=[op], comparators=[right])))
+                left = right
+            return self.visit_BoolOp(ast.BoolOp(op=ast.And(), values=parts))
         if len(node.ops) == 1:
             # type(x) is T -> type(x) == T ;  x in [a, b] -> x in (a, b)
             if isinstance(node.ops[0], (ast.Is, ast.IsNot)) and isinstance(node.left, ast.Call) and isinstance(node.left.func, ast.Name) and node.left.func.id == "type":
@@ -458,6 +534,16 @@ def U(e) -> str:
         return CanonStr(ast.unparse(e))
 
 
+def canon_ast(e):
+    """The canonical form of an expression as a tree (a fresh copy)."""
+    if not isinstance(e, ast.AST) or isinstance(e, (ast.stmt, ast.mod)):
+        return e
+    try:
+        return ast.fix_missing_locations(_Canon().visit(copy.deepcopy(e)))
+    except Exception:
+        return e
+
+
 class FactDict(dict):
     """facts keyed by canonical text; lookups canonicalise the key"""
 
@@ -465,14 +551,56 @@ class FactDict(dict):
     def _k(key):
         return key if isinstance(key, CanonStr) or not isinstance(key, str) else canon_text(key)
 
+    _ORD = {" > ": (" < ", " <= "), " >= ": (" <= ", " < "), " < ": (" > ", " >= "), " <= ": (" >= ", " > ")}
+
+    @classmethod
+    def _equivalents(cls, k: str):
+        """Other spellings of an ordering `a OP b`: (text, same polarity?)  -  b OP' a (same), a notOP b (flipped), b notOP' a (flipped)."""
+        for neg, pos in ((" != ", " == "), (" is not ", " is "), (" not in ", " in ")):
+            if k.count(neg) == 1 and " and " not in k and " or " not in k and " if " not in k:
+                a, b = k.split(neg)
+                if a.count("(") == a.count(")") and b.count("(") == b.count(")") and a.count("[") == a.count("]") and b.count("[") == b.count("]"):
+                    alts = [(f"{a}{pos}{b}", False)]
+                    if neg == " != ":
+                        alts.append((f"{b} == {a}", False))
+                    return alts
+        if k.count(" == ") == 1 and " and " not in k and " or " not in k and " if " not in k and not any(o in k for o in cls._ORD):
+            a, b = k.split(" == ")
+            if a.count("(") == a.count(")") and a.count("[") == a.count("]") and b.count("(") == b.count(")") and b.count("[") == b.count("]"):
+                return [(f"{b} == {a}", True)]
+            return []
+        for op, (mirror, neg) in cls._ORD.items():
+            if k.count(op) == 1 and not any(k.count(o) for o in cls._ORD if o != op and o.strip() not in op.strip() and op.strip() not in o.strip()):
+                a, b = k.split(op)
+                if a.count("(") != a.count(")") or b.count("(") != b.count(")") or " and " in k or " or " in k or " if " in k:
+                    return []
+                negm = cls._ORD[neg][0]
+                return [(f"{b}{mirror}{a}", True), (f"{a}{neg}{b}", False), (f"{b}{negm}{a}", False)]
+        return []
+
+    def _find(self, key):
+        k = self._k(key)
+        if dict.__contains__(self, k):
+            return True, dict.__getitem__(self, k)
+        if isinstance(k, str):
+            for alt, same in self._equivalents(str(k)):
+                if dict.__contains__(self, alt):
+                    v = dict.__getitem__(self, alt)
+                    return True, (v if same or not isinstance(v, bool) else not v)
+        return False, None
+
     def get(self, key, default=None):
-        return dict.get(self, self._k(key), default)
+        found, v = self._find(key)
+        return v if found else default
 
     def __getitem__(self, key):
-        return dict.__getitem__(self, self._k(key))
+        found, v = self._find(key)
+        if not found:
+            raise KeyError(key)
+        return v
 
     def __contains__(self, key):
-        return dict.__contains__(self, self._k(key))
+        return self._find(key)[0]
 
     def setdefault(self, key, default=None):
         return dict.setdefault(self, str(self._k(key)), default)
@@ -612,6 +740,39 @@ def atoms(cond: ast.AST, truth: bool) -> List[Tuple[str, bool]]:
     return [(U(cond), truth)]
 
 
+def _equality_closure(f: Dict[str, bool]):
+    """a == b and b == c (both known true) give a == c: every member of an equality class equals the class's constants."""
+    pairs = []
+    for k, v in list(f.items()):
+        if v is True and k.count(" == ") == 1 and " and " not in k and " or " not in k and " if " not in k:
+            a, b = k.split(" == ")
+            if a.count("(") == a.count(")") and b.count("(") == b.count(")") and a.count("[") == a.count("]") and b.count("[") == b.count("]"):
+                pairs.append((a, b))
+    if len(pairs) < 2:
+        return
+    parent: Dict[str, str] = {}
+
+    def find(x):
+        parent.setdefault(x, x)
+        while parent[x] != x:
+            parent[x] = parent[parent[x]]
+            x = parent[x]
+        return x
+
+    for a, b in pairs:
+        parent[find(a)] = find(b)
+    classes: Dict[str, list] = {}
+    for x in list(parent):
+        classes.setdefault(find(x), []).append(x)
+    for members in classes.values():
+        if len(members) < 3:
+            continue
+        for a in members:
+            for b in members:
+                if a != b and f"{a} == {b}" not in f:
+                    f[f"{a} == {b}"] = True
+
+
 def path_facts(p: "Path") -> Dict[str, bool]:
     """Atomic facts known on a path, closed under unit propagation:
     not(a and b) with a known true gives not b;  (a or b) with a known false gives b."""
@@ -625,6 +786,7 @@ def path_facts(p: "Path") -> Dict[str, bool]:
             core, truth = core.operand, not truth
         if isinstance(core, ast.BoolOp) and ((isinstance(core.op, ast.And) and not truth) or (isinstance(core.op, ast.Or) and truth)):
             pending.append((core, truth))
+    _equality_closure(f)
     changed = True
     while changed:
         changed = False
@@ -648,6 +810,54 @@ def path_facts(p: "Path") -> Dict[str, bool]:
                     f[a] = pol
                     changed = True
     return f
+
+
+def _first_ifexp(e):
+    """The first conditional expression nested in `e` (not inside a lambda or comprehension, not in a test position)."""
+    stack = [e]
+    while stack:
+        n = stack.pop(0)
+        if isinstance(n, ast.IfExp):
+            return n
+        if isinstance(n, (ast.Lambda, ast.ListComp, ast.SetComp, ast.DictComp, ast.GeneratorExp)):
+            continue
+        if isinstance(n, ast.BoolOp):
+            stack.append(n.values[0])  # later operands are evaluated conditionally
+            continue
+        stack.extend(ast.iter_child_nodes(n))
+    return None
+
+
+def ifexp_cases(e, depth: int = 4, nested: bool = False):
+    """Case split of a conditional expression: [(value, [(condition, truth), ...])] (a plain expression is one case).
+    nested=True also splits on a conditional expression nested in a larger one: f(a if c else b) -> f(a) | f(b)."""
+    if nested and depth > 0 and isinstance(e, ast.AST) and not isinstance(e, ast.IfExp):
+        n = _first_ifexp(e)
+        if n is not None:
+            c = canon_ast(n.test)
+            out = []
+            for branch, truth in ((n.body, True), (n.orelse, False)):
+                for v, conds in ifexp_cases(_replace_node(e, n, branch), depth - 1, True):
+                    out.append((v, [(c, truth)] + conds))
+            return out
+    if isinstance(e, ast.IfExp) and depth > 0:
+        c = canon_ast(e.test)
+        out = []
+        for v, conds in ifexp_cases(e.body, depth - 1, nested):
+            out.append((v, [(c, True)] + conds))
+        for v, conds in ifexp_cases(e.orelse, depth - 1, nested):
+            out.append((v, [(c, False)] + conds))
+        return out
+    return [(e, [])]
+
+
+def facts_with(p: "Path", extra) -> Dict[str, bool]:
+    """path_facts of `p` extended by extra (condition, truth) pairs."""
+    q = p.clone()
+    q.end = p.end
+    for c, t in extra:
+        q.conds.append((c, t, 0))
+    return path_facts(q)
 
 
 # functions the rules treat as atoms (their vocabulary): never inlined by the path engine
@@ -696,12 +906,16 @@ class InlineCtx:
 
     def resolve_constants(self, e: ast.AST, fn, p: "Path") -> ast.AST:
         mi = self.mi
+        repo_ = self.repo
         local = set(params_of(fn)) | set(p.env) | set(p.closures)
 
         class C(ast.NodeTransformer):
             def visit_Name(self, node):
                 if isinstance(node.ctx, ast.Load) and node.id not in local and node.id.isupper() or (isinstance(node.ctx, ast.Load) and node.id not in local and node.id.startswith("_") and node.id[1:2].isupper()):
                     v = mi.defs.get(node.id)
+                    if v is None and node.id in mi.imports:  # a constant imported from another module of the package
+                        r = repo_.resolve(mi, node.id)
+                        v = r[1] if r is not None else None
                     if isinstance(v, ast.Constant) and isinstance(v.value, (int, float, str)) and not isinstance(v.value, bool):
                         return ast.copy_location(ast.Constant(value=v.value), node)
                     if isinstance(v, (ast.Tuple, ast.List)) and all(isinstance(x, (ast.Constant, ast.Name)) or (isinstance(x, ast.UnaryOp) and isinstance(x.operand, ast.Constant)) for x in v.elts):
@@ -788,6 +1002,7 @@ class PathEnum:
         self.ctx = ctx
         self.depth = depth
         self._stack: List[int] = [id(fn)]
+        self.fork_returns = True  # an inlined helper keeps `a if c else b` as one value
 
     def run(self) -> List[Path]:
         p = Path()
@@ -815,10 +1030,22 @@ class PathEnum:
         p.end = (kind, expr, lineno)
         self.out.append(p)
 
+    def _finish_return(self, q: Path, val, lineno, depth=0):
+        """`return a if c else b` is two return paths (c holds / does not hold)."""
+        if self.fork_returns and val is not None and _first_ifexp(val) is not None:
+            cases = ifexp_cases(val, nested=True)
+            for i, (cv, extra) in enumerate(cases):
+                qq = q if i == len(cases) - 1 else q.clone()
+                for c, t in extra:
+                    qq.conds.append((copy.deepcopy(c), t, lineno))
+                self.finish(qq, "return", cv, lineno)
+            return
+        self.finish(q, "return", val, lineno)
+
     def stmt(self, st, p: Path) -> List[Path]:
         if isinstance(st, ast.Return):
             for val, q in self.sx(st.value, p, st):
-                self.finish(q, "return", val, st.lineno)
+                self._finish_return(q, val, st.lineno)
             return []
         if isinstance(st, ast.Raise):
             self.finish(p, "raise", subst(st.exc, p.env), st.lineno)
@@ -834,9 +1061,15 @@ class PathEnum:
         if isinstance(st, ast.Assign):
             out = []
             for val, q in self.sx(st.value, p, st):
-                for tgt in st.targets:
-                    self.assign(tgt, val, q, st)
-                out.append(q)
+                local = all(isinstance(t, ast.Name) for t in st.targets)
+                cases = ifexp_cases(val, nested=True) if (local and self.fork_returns and val is not None and _first_ifexp(val) is not None) else [(val, [])]
+                for i, (cv, extra) in enumerate(cases):
+                    qq = q if i == len(cases) - 1 else q.clone()
+                    for c, t in extra:
+                        qq.conds.append((copy.deepcopy(c), t, st.lineno))
+                    for tgt in st.targets:
+                        self.assign(tgt, cv, qq, st)
+                    out.append(qq)
             return out
         if isinstance(st, ast.AnnAssign):
             if st.value is None:
@@ -858,6 +1091,7 @@ class PathEnum:
         if isinstance(st, ast.If):
             out = []
             for c, q in self.sx(st.test, p, st):
+                c = canon_ast(c)
                 pt, pf = q, q.clone()
                 pt.conds.append((c, True, st.lineno))
                 pf.conds.append((copy.deepcopy(c), False, st.lineno))
@@ -875,6 +1109,7 @@ class PathEnum:
         if isinstance(st, ast.Assert):
             out = []
             for c, q in self.sx(st.test, p, st):
+                c = canon_ast(c)
                 q.conds.append((c, True, st.lineno))
                 q.effects.append(("assert", copy.deepcopy(c), st.lineno, q.in_loop))
                 out.append(q)
@@ -992,6 +1227,7 @@ class PathEnum:
                 node, hfn, henv, hmi = call
                 sub = PathEnum(hfn, henv, ctx=self.ctx.for_module(hmi), depth=self.depth - 1)
                 sub._stack = self._stack + [id(hfn)]
+                sub.fork_returns = False
                 for hp in sub.run():
                     if not path_feasible(hp):
                         continue
